@@ -36,6 +36,11 @@ def classify(c):
         # path-id local side: the remote user renames a file and re-creates the old name while the engine is down; after
         # the restart (sync loop first) the engine re-uploads bytes the remote already holds (wasted transfer, no loss)
         return "G10-path-id-rename-recreate-reuploads"
+    if any(len(op) > 2 and op[0] in ("write", "create") and op[2] == "SAME" for _, op in ops) and \
+            any(op[0] == "rename" for _, op in ops):
+        # both sides wrote identical bytes and one also renamed: the silent equal-content merge records the current
+        # paths as synced and the rename is never propagated
+        return "G7-equal-content-merge-swallows-rename"
     if c["property"] == "C12":
         allops = [op for _, op in ops]
         if kind == "outside-modified":
